@@ -824,9 +824,9 @@ class LogNormal(object):
         and can go < 0 since no logs are taken
         """
         if isinstance(x, numpy.ndarray):
-            prob = numpy.zeros(x.size)
-            (w,) = numpy.where(x > 0)
-            if w.size > 0:
+            prob = numpy.zeros(x.shape)
+            w = x > 0
+            if w.any():
                 lnprob = self._lnprob_array(x[w])
                 prob[w] = exp(lnprob)
         else:
